@@ -8,6 +8,7 @@
 import PygModel.PerDict
 import PygProofs.Lemmas.PerDictLemmas
 import PygProofs.Lemmas.PerDictJoin
+import PygProofs.Lemmas.PerDictTotal
 import PygProofs.Props.C02
 
 namespace Pyg.Props.C20
@@ -490,6 +491,60 @@ theorem join_value_at {inputs : List (String × PInput)} {on : List String}
     · exact absurd (keq_trans (keq_symm (hag j')) hk') (hno j' hj')
     · exact ⟨v, hd, hval⟩
 
+/-- **`_item` returns** when a value column can be chosen: the input has a column named like the
+parameter, or a column `data` that is not a key column, or exactly one non-key column (otherwise the
+code raises KeyError — modelled, `item`) -/
+theorem item_returns (d : Table) (key : String) (on : List String) (hon : ∀ c ∈ on, c ∈ d.cols)
+    (h : key ∈ d.cols ∨ ("data" ∈ d.cols ∧ "data" ∉ on) ∨ ∃ other, lminus d.cols on = [other]) :
+    ∃ t, item d key on = .ok t :=
+  item_total d key on hon h
+
+/-- **`join` returns a table** — never an error, never the model's "not covered" answer — for every
+dict of inputs as in `join_keys` (distinct names that are not key columns, at least one table, every
+table rectangular with distinct column names and keyed by all of `on`) whose `_item` succeeds
+(`item_returns`).  So `join_keys` describes the result of *every* such call. -/
+theorem join_returns (inputs : List (String × PInput)) (on : List String)
+    (defaults : List (String × Cell))
+    (hon : on ≠ []) (hnames : (inputs.map (·.1)).Nodup) (hoff : ∀ kv ∈ inputs, kv.1 ∉ on)
+    (htab : ∀ kv ∈ tableInputs inputs, kv.2.WF ∧ kv.2.cols.Nodup ∧ ∀ c ∈ on, c ∈ kv.2.cols)
+    (hany : tableInputs inputs ≠ [])
+    (hitem : ∀ kv ∈ tableInputs inputs, ∃ t, item kv.2 kv.1 on = .ok t) :
+    ∃ ds, pdJoin inputs on defaults = some (.ok ds) := by
+  obtain ⟨seq, hseq⟩ := mapM_item_total on inputs hitem
+  obtain ⟨i1, i2, i3⟩ := mapM_item_sem on inputs seq hseq
+  rw [pdJoin_unfold inputs seq on defaults hseq, i1, i2]
+  have hToff : ∀ a ∈ tableInputs inputs, a.1 ∉ on := fun a ha =>
+    hoff _ (mem_tableInputs.1 ha)
+  generalize hts : (tableInputs inputs).map (fun a => (a.1, itemD a.2 a.1 on)) = ts
+  have hmem : ∀ b ∈ ts, ∃ a ∈ tableInputs inputs, b = (a.1, itemD a.2 a.1 on) := by
+    intro b hb
+    rw [← hts] at hb
+    obtain ⟨a, ha, rfl⟩ := List.mem_map.1 hb
+    exact ⟨a, ha, rfl⟩
+  have hne : ts ≠ [] := by
+    rw [← hts]
+    cases hT : tableInputs inputs with
+    | nil => exact absurd hT hany
+    | cons a as => simp
+  have hne' : ts.isEmpty = false := by cases ts <;> simp_all
+  have hks : ∀ b ∈ ts, KeyedSrc on b.2 b.1 := by
+    intro b hb
+    obtain ⟨a, ha, rfl⟩ := hmem b hb
+    exact (item_rows a.2 _ a.1 on (htab a ha).1 (htab a ha).2.2 (hToff a ha) (i3 a ha)).1
+  have hos : ∀ b ∈ ts, OnNodup on b.2 := by
+    intro b hb
+    obtain ⟨a, ha, rfl⟩ := hmem b hb
+    exact item_onNodup a.2 _ a.1 on (htab a ha).2.1 (hToff a ha) (i3 a ha)
+  have hnd : (ts.map (·.1)).Nodup := by
+    rw [← hts, List.map_map]
+    exact hnames.sublist (tableInputs_names inputs)
+  obtain ⟨d, hd⟩ := joinTables_total on hon ts
+    (defaults.filter fun kv => (inputs.map (·.1)).contains kv.1) hne hks hos hnd
+  obtain ⟨dw, dc, _⟩ := joinTables_sem on hon ts _ d hks hnd hd
+  obtain ⟨ds, hds⟩ := finish_total on hon d (scalarInputs inputs) dw
+    (fun c hc => (dc c).2 (.inl hc))
+  exact ⟨ds, by simp only [hne', Bool.false_eq_true, if_false, hd, hds]⟩
+
 /-! ## end to end -/
 
 /-- **The property, end to end.**  A function lifted with `perdictable(f, on = keys)` is called with
@@ -554,6 +609,34 @@ theorem perdictable_end_to_end (f : List Cell → Val) (params on : List String)
         simp only [Option.some.injEq, Except.ok.injEq] at h
         exact .inr ⟨hn, h.symm⟩
 
+/-- **the lifted call returns** (no error, no uncovered step) for every call as in
+`perdictable_end_to_end` whose tables have distinct column names and a selectable value column — so
+the end-to-end statement describes every such call -/
+theorem perdictable_returns (f : List Cell → Val) (params on : List String)
+    (defaults : List (String × Cell)) (inputs : List (String × PInput)) (expiry : PInput)
+    (today : Int)
+    (hon : on ≠ []) (hnames : ((inputs ++ [("expiry", expiry)]).map (·.1)).Nodup)
+    (hoff : ∀ kv ∈ inputs ++ [("expiry", expiry)], kv.1 ∉ on)
+    (htab : ∀ kv ∈ tableInputs (inputs ++ [("expiry", expiry)]),
+      kv.2.WF ∧ kv.2.cols.Nodup ∧ ∀ c ∈ on, c ∈ kv.2.cols)
+    (hany : tableInputs (inputs ++ [("expiry", expiry)]) ≠ [])
+    (hitem : ∀ kv ∈ tableInputs (inputs ++ [("expiry", expiry)]), ∃ t, item kv.2 kv.1 on = .ok t) :
+    ∃ res, perdictable f params on defaults inputs expiry today = some (.ok res) := by
+  obtain ⟨ds, hj⟩ := join_returns (inputs ++ [("expiry", expiry)]) on
+    (defaults ++ (if (defaults.map (·.1)).contains "data" then [] else [("data", Cell.none)]) ++
+      (if (defaults.map (·.1)).contains "expiry" then [] else [("expiry", Cell.none)]))
+    hon hnames hoff htab hany hitem
+  have hs := join_keys _ on _ ds hon hnames hoff
+    (fun kv hkv => ⟨(htab kv hkv).1, (htab kv hkv).2.2⟩) hany hj
+  by_cases hn : ds.nrows = 0
+  · exact ⟨_, no_rows f params on defaults inputs expiry today ds hj hn⟩
+  · have ht : (inputs ++ [("expiry", expiry)]).any (fun kv => kv.2.isTable) = true := by
+      obtain ⟨a, ha⟩ := List.exists_mem_of_ne_nil _ hany
+      rw [List.any_eq_true]
+      exact ⟨_, mem_tableInputs.1 ha, rfl⟩
+    have hk := select_ok ds on (fun k hk => (hs.cols k).2 (.inl hk))
+    exact ⟨_, table_result f params on defaults inputs expiry today ds _ hj hn ht hon hk⟩
+
 /-! ## non-vacuity and evaluation tests -/
 
 def fEx (args : List Cell) : Val := .tuple (args.map .cell)
@@ -585,18 +668,20 @@ example : linter tA.cols tB.cols ≠ [] ∧
     tA.keysOf ((linter tA.cols tB.cols).map .col) = .ok [.tuple [.cell (.int 3)], .tuple [.cell (.int 1)], .tuple [.cell (.int 2)]] := by
   refine ⟨by decide, rfl⟩
 
-/-- the hypotheses of `join_keys` / `perdictable_end_to_end` are satisfiable: two tables (one with a
-default) and a scalar -/
+/-- the hypotheses of `join_keys` / `join_returns` / `item_returns` / `perdictable_end_to_end` are
+satisfiable: two tables (one with a default) and a scalar -/
 example : let inputs : List (String × PInput) := [("a", .table tA), ("b", .table tB), ("c", .scalar (.int 7))]
     ["k"] ≠ [] ∧ (inputs.map (·.1)).Nodup ∧ (∀ kv ∈ inputs, kv.1 ∉ ["k"]) ∧
-    (∀ kv ∈ tableInputs inputs, kv.2.WF ∧ ∀ c ∈ ["k"], c ∈ kv.2.cols) ∧ tableInputs inputs ≠ [] := by
+    (∀ kv ∈ tableInputs inputs, kv.2.WF ∧ kv.2.cols.Nodup ∧ (∀ c ∈ ["k"], c ∈ kv.2.cols) ∧
+      (kv.1 ∈ kv.2.cols ∨ ("data" ∈ kv.2.cols ∧ "data" ∉ ["k"]) ∨ ∃ other, lminus kv.2.cols ["k"] = [other])) ∧
+    tableInputs inputs ≠ [] := by
   refine ⟨by decide, by decide, by decide, ?_, by decide⟩
   intro kv hkv
   simp only [tableInputs, List.filterMap_cons, List.filterMap_nil, List.mem_cons, List.not_mem_nil,
     or_false] at hkv
   rcases hkv with rfl | rfl
-  · exact ⟨⟨by decide, by decide⟩, by decide⟩
-  · exact ⟨⟨by decide, by decide⟩, by decide⟩
+  · exact ⟨⟨by decide, by decide⟩, by decide, by decide, .inl (by decide)⟩
+  · exact ⟨⟨by decide, by decide⟩, by decide, by decide, .inl (by decide)⟩
 
 -- … and `join` returns a table on them: key 1 (only in `a`) survives with b's default, key 4 (only in
 -- `b`, `a` has no default) does not; the scalar is broadcast; rows sorted by key
